@@ -1,6 +1,7 @@
 package main
 
 import (
+	"sort"
 	"fmt"
 	"go/ast"
 	"go/token"
@@ -20,6 +21,8 @@ func init() {
 		Witness{Rule: "C11.block", Name: "best-uses-unknown-type", File: f, Old: "\tcase CompressBest:\n\t\ts.compValues = blockTypeZstd", New: "\tcase CompressBest:\n\t\ts.compValues = 3", Breaks: "CompressBest output cannot be read back"},
 		Witness{Rule: "C15.ser", Name: "values-truncated-late", File: f, Old: "\ts.valuesBuf = s.valuesBuf[:0]\n\toff := 0", New: "\toff := 0", Breaks: "Deserialize(A) then Serialize(B) on one Serializer prepends A's value bytes"},
 		Witness{Rule: "C15.ser", Name: "strings-not-reset", File: f, Old: "\tif len(s.stringBuf) > 0 {\n\t\ts.stringBuf = s.stringBuf[:0]\n\t}\n", New: "", Breaks: "the second Serialize on one Serializer declares the first call's strings too"},
+		Witness{Rule: "C19.join", Name: "message-error-dropped", File: f, Old: "\tif msgErr != nil {\n\t\treturn dst, fmt.Errorf(\"reading message: %w\", msgErr)\n\t}\n", New: "\t_ = msgErr\n", Breaks: "a corrupt message block deserializes successfully"},
+		Witness{Rule: "C19.join", Name: "strings-error-read-before-wait", File: f, Old: "\tsWG.Wait()\n\tif off != len(dst.Tape) {", New: "\tif off != len(dst.Tape) {", Breaks: "stringsErr is read while its decoder may still run"},
 		Witness{Rule: "C19.join", Name: "no-wait-for-tags", File: f, Old: "\tdefer wg.Wait()\n", New: "", Breaks: "a values-block error returns while the tags goroutine still writes s.tagsBuf"},
 	)
 }
@@ -487,6 +490,9 @@ func ruleJoin(c *Ctx) {
 	type pend struct{ wg, call string }
 	bad := map[string]bool{}
 	nRet := 0
+	nNilRet := 0
+	slots := map[string]bool{}
+	slotBad := map[string]string{}
 	for _, pa := range paths {
 		env := p.NewFuncEnv(fd)
 		sp := p.ExecPath(pa, env)
@@ -509,7 +515,7 @@ func ruleJoin(c *Ctx) {
 				wg := strings.TrimPrefix(ef.Args[2].String(), "&")
 				evts = append(evts, evt{ef.At, "launch", wg, ef.Val.String()})
 			case ef.Kind == "call" && strings.HasSuffix(ef.Target, "sync.WaitGroup).Wait"):
-				evts = append(evts, evt{ef.At, "wait", ef.Base, ""})
+				evts = append(evts, evt{ef.At, "wait", atomBase(ef.Base), ""})
 			case ef.Kind == "defer" && strings.HasSuffix(ef.Target, "sync.WaitGroup).Wait"):
 				if ds, ok := ef.Node.(*ast.DeferStmt); ok {
 					if sel, ok := ds.Call.Fun.(*ast.SelectorExpr); ok {
@@ -552,6 +558,39 @@ func ruleJoin(c *Ctx) {
 				deferred[e.a] = true
 			}
 		}
+		// a successful return has looked at every decoder's error slot, after waiting for that decoder
+		if len(sp.Ret) >= 1 && isNilAff(sp.Ret[len(sp.Ret)-1]) {
+			nNilRet++
+			for _, ef := range sp.Effects {
+				if !(ef.Kind == "call" && ef.Target == "Serializer.decBlock" && len(ef.Args) >= 4) {
+					continue
+				}
+				wg := strings.TrimPrefix(ef.Args[2].String(), "&")
+				slot := strings.TrimPrefix(ef.Args[3].String(), "&")
+				slots[slot] = true
+				waitAt := -1
+				for _, e2 := range sp.Effects {
+					if e2.Kind == "call" && strings.HasSuffix(e2.Target, "sync.WaitGroup).Wait") && atomBase(e2.Base) == wg && e2.At > ef.At {
+						if waitAt < 0 {
+							waitAt = e2.At
+						}
+					}
+				}
+				checked := false
+				for _, cd := range sp.Conds {
+					if cd.Other != "" || cd.Op != token.EQL || !isNilAff(cd.R) {
+						continue
+					}
+					la := cd.L.String()
+					if (la == slot || strings.HasPrefix(la, slot+"@")) && waitAt >= 0 && cd.At > waitAt {
+						checked = true
+					}
+				}
+				if !checked && slotBad[slot] == "" {
+					slotBad[slot] = p.Pos(sp.RetNode)
+				}
+			}
+		}
 		for wg := range pending {
 			if deferred[wg] {
 				continue
@@ -565,6 +604,22 @@ func ruleJoin(c *Ctx) {
 		}
 	}
 	c.MinCount("Deserialize returning paths", nRet, 20)
+	c.MinCount("Deserialize successful paths", nNilRet, 1)
+	c.MinCount("decoder error slots", len(slots), 4)
+	var slotNames []string
+	for sl := range slots {
+		slotNames = append(slotNames, sl)
+	}
+	sort.Strings(slotNames)
+	for _, sl := range slotNames {
+		pos, isBad := slotBad[sl]
+		if !isBad {
+			pos = p.Pos(fd)
+		}
+		c.Check(!isBad, "Deserialize:errslot:"+strings.TrimPrefix(sl, "L:"), pos, "checked after the decoder was awaited on every successful return",
+			"Deserialize returns nil without looking at "+strings.TrimPrefix(sl, "L:")+" (after waiting for its decoder): a block that fails to decompress is reported as success, and the destination keeps whatever it held — zeroes, or with a reused destination the bytes of the previously deserialized document",
+			"a blob whose S2/zstd-compressed message block is corrupt, deserialized into a reused ParsedJson")
+	}
 	if len(bad) == 0 {
 		c.Ok("Deserialize:join", p.Pos(fd), fmt.Sprintf("every decoder goroutine is awaited on all %d returning paths", nRet))
 	}
@@ -597,4 +652,12 @@ func ruleJoin(c *Ctx) {
 		c.Check(nGo > 0 && int64(nGo) == addN && add < lastGo && wait > lastGo, "Serialize:join", p.Pos(sfd), fmt.Sprintf("wg.Add(%d), %d goroutines, wg.Wait() before the compressed buffers are read", addN, nGo),
 			fmt.Sprintf("Serialize starts %d compressor goroutines but registers %d / does not wait for them before assembling the output", nGo, addN), "")
 	}
+}
+
+// atomBase strips the "@callee#n" suffix a variable's atom gets when its address was handed to a call.
+func atomBase(a string) string {
+	if i := strings.Index(a, "@"); i >= 0 {
+		return a[:i]
+	}
+	return a
 }
